@@ -134,6 +134,33 @@ Theorem C03_begin_block_order_is_the_apps : vpn_begin_block_calls = ["subscripti
 Proof. exact (conj vpn_begin_block_is_model (conj custommint_before_mint model_begin_block_order)). Qed.
 End wiring.
 
+(* THE GOVERNANCE GATE.  A proposal is executed only if every one of its changes passes the per-key
+   validator of its parameter (x/*/types/params.go, run by Subspace.Update); a proposal with one failing
+   change changes nothing.  An executed proposal keeps every single-parameter condition the block hooks
+   rely on (delays and the node lease positive, both staking shares within [0, 1]), so the only thing
+   the configuration domain has to ASSUME about governance is the one cross-parameter condition the
+   validators cannot see (session delay <= subscription delay) -- see [wf_op_life]. *)
+Theorem C03_governance_gate : forall s cs s',
+  step s (OGov cs) = OOk s' ->
+  forallb pchange_valid cs = true /\ s' = fold_left apply_pchange cs (clear_events s).
+Proof. exact step_gov_ok. Qed.
+
+Theorem C03_executed_proposal_keeps_parameters_sane : forall cs s,
+  par_ok (pars s) -> forallb pchange_valid cs = true ->
+  p_sess_delay (pars (fold_left apply_pchange cs s)) <= p_sub_delay (pars (fold_left apply_pchange cs s)) ->
+  par_ok (pars (fold_left apply_pchange cs s)).
+Proof. exact gov_par_ok. Qed.
+
+(* non-vacuity of the gate: a staking share above 1, a zero delay and a negative deposit are each refused
+   (the whole proposal, also its valid first change), a valid proposal is executed *)
+Example C03_gate_examples :
+  let s := init wt_genesis in
+  step s (OGov [PCSessProof true; PCNodeShare (P18 + 1)]) = ORejected /\
+  step s (OGov [PCSubDelay 0]) = ORejected /\
+  step s (OGov [PCProvDeposit (1%N, -1)]) = ORejected /\
+  (exists s', step s (OGov [PCNodeShare P18; PCSubDelay 7]) = OOk s' /\ p_node_share (pars s') = P18 /\ p_sub_delay (pars s') = 7).
+Proof. vm_compute. repeat split. eexists. repeat split. Qed.
+
 Print Assumptions C03_chain_never_halts.
 Print Assumptions C03_run_never_halts.
 Print Assumptions C03_step_never_halts.
@@ -147,3 +174,5 @@ Print Assumptions C03_invariant_genesis.
 Print Assumptions C03_domain_boundary_witness.
 Print Assumptions C03_end_block_order_is_the_apps.
 Print Assumptions C03_begin_block_order_is_the_apps.
+Print Assumptions C03_governance_gate.
+Print Assumptions C03_executed_proposal_keeps_parameters_sane.
